@@ -85,14 +85,31 @@ const (
 	violates = 2
 )
 
-type verdict struct{ sev int }
+// verdict of one run of one case: every failure is noted, one is recorded - the first property violation if
+// there is one, else the first difference (a case with 64 names must not flood the result with 64 lines).
+type verdict struct {
+	sev   int
+	first [3]*rig.Failure
+}
 
-func (v *verdict) note(kind string) {
-	if kind == "judge" {
-		v.sev = violates
-	} else if v.sev < diffOnly {
-		v.sev = diffOnly
+func (v *verdict) note(f rig.Failure) {
+	k := diffOnly
+	if f.Kind == "judge" {
+		k = violates
 	}
+	if v.sev < k {
+		v.sev = k
+	}
+	if v.first[k] == nil {
+		v.first[k] = &f
+	}
+}
+
+func (v *verdict) flush(c *rig.Ctx, m mode) int {
+	if m.record && v.sev != pass {
+		c.Fail(*v.first[v.sev])
+	}
+	return v.sev
 }
 
 func runCase(c *rig.Ctx, cs Case, m mode) int {
@@ -150,8 +167,16 @@ func shrink(c *rig.Ctx, cs Case, sev int) Case {
 	return cs
 }
 
+var nViolations, nDiffs int
+
 func try(c *rig.Ctx, cs Case) {
 	if sev := runCase(c, cs, mode{count: true}); sev != pass {
+		if sev == violates {
+			nViolations++
+		} else if nDiffs++; nDiffs > 4 {
+			c.Count("differences-not-recorded")
+			return // enough examples of the difference: go on searching for a property violation
+		}
 		small := shrink(c, cs, sev)
 		if runCase(c, small, mode{record: true}) == pass {
 			// the shrunk case passes on a second look (should not happen: runs are deterministic): record the original
@@ -205,16 +230,16 @@ func main() {
 		nGateway := c.Budget(800, 10000) // x 12 names
 		nHistory := c.Budget(1500, 30000) // x 5-60 ops
 		nK8s := c.Budget(400, 5000)
-		for i := 0; i < nShard && c.NFailures() < 5; i++ {
+		for i := 0; i < nShard && nViolations < 3; i++ {
 			try(c, genShard(c, i))
 		}
-		for i := 0; i < nGateway && c.NFailures() < 5; i++ {
+		for i := 0; i < nGateway && nViolations < 3; i++ {
 			try(c, genGateway(c, i))
 		}
-		for i := 0; i < nHistory && c.NFailures() < 5; i++ {
+		for i := 0; i < nHistory && nViolations < 3; i++ {
 			try(c, genHistory(c, i))
 		}
-		for i := 0; i < nK8s && c.NFailures() < 5; i++ {
+		for i := 0; i < nK8s && nViolations < 3; i++ {
 			try(c, genK8s(c, i))
 		}
 		closeWorld()
